@@ -238,6 +238,7 @@ var allTypes = []reflect.Type{
 	reflect.TypeFor[*ast.RangeStmt](),
 	reflect.TypeFor[*ast.AssignStmt](),
 	reflect.TypeFor[*ast.IndexExpr](),
+	reflect.TypeFor[*ast.IndexListExpr](),
 	reflect.TypeFor[*ast.Ident](),
 	reflect.TypeFor[*ast.ValueSpec](),
 	reflect.TypeFor[*ast.GenDecl](),
